@@ -134,6 +134,10 @@ func runCase(c string) string {
 		return runGJSON(f)
 	case "ammo":
 		return runAmmo(f)
+	case "scfile":
+		return runScFile(f)
+	case "phoutq":
+		return runPhoutQ(f)
 	case "hscen":
 		return runHScen(f)
 	case "gshoot":
@@ -267,6 +271,7 @@ func gen(r *vh.Rand, tier string) []string {
 	out = append(out, genGuns(r, tier)...)
 	out = append(out, genCfgGuns(r, tier)...)
 	out = append(out, genAmmo(r, tier)...)
+	out = append(out, genRun(r, tier)...)
 	return out
 }
 
